@@ -46,7 +46,7 @@ ASSUMPTIONS = [
     "custom filter_by_ids implementations used here honour the documented contract",
 ]
 
-KINDS = ["plain", "custom", "customsort", "customfilter", "custominplace", "fixturesuite"]
+KINDS = ["plain", "custom", "customsort", "customfilter", "custominplace", "fixturesuite", "concurrent"]
 
 
 def classes():
@@ -77,8 +77,20 @@ def classes():
     def fixture_suite(tests):
         return FixtureSuite(fixtures.Fixture(), tests)
 
+    import testtools
+
+    class HashableSuite(unittest.TestSuite):
+        __hash__ = object.__hash__
+
+    def concurrent(tests):
+        # ConcurrentTestSuite wraps ONE suite (here a custom one with its own filter_by_ids)
+        # (run, it hands everything to one worker, in order; workers must be hashable)
+        return testtools.ConcurrentTestSuite(
+            CustomFilter(tests), lambda suite: [HashableSuite(list(testtools.iterate_tests(suite)))])
+
     return {"plain": unittest.TestSuite, "custom": Custom, "customsort": CustomSort,
-            "customfilter": CustomFilter, "custominplace": CustomInPlace, "fixturesuite": fixture_suite}
+            "customfilter": CustomFilter, "custominplace": CustomInPlace, "fixturesuite": fixture_suite,
+            "concurrent": concurrent}
 
 
 def build(tree, cls, runlog):
@@ -137,6 +149,19 @@ def x_tree(ctx, case):
         want_paths = [(i, p) for i, p in before if i in keep]
         ctx.check(paths(f) == want_paths, "filter.grouping-preserved",
                   lambda: {"got": paths(f), "want": want_paths, **detail()})
+        # a ConcurrentTestSuite is a wrapper around ONE suite: that group is still its only member
+        import testtools
+
+        def wrappers_ok(obj):
+            try:
+                it = list(iter(obj))
+            except TypeError:
+                return True
+            if isinstance(obj, testtools.ConcurrentTestSuite) and [type(c).__name__ for c in it] != ["CustomFilter"]:
+                return False
+            return all(wrappers_ok(c) for c in it)
+        ctx.check(wrappers_ok(f), "filter.grouping-preserved",
+                  lambda: {"a ConcurrentTestSuite no longer holds the suite it wraps": paths(f)[:6], **detail()})
     else:
         ctx.count("mon:filter.grouping-preserved")
     # every removed test leaves its own new, empty TestSuite: using one as the suite it is documented
@@ -382,6 +407,25 @@ def x_run(ctx, case):
             except SystemExit:
                 pass
         out = io.StringIO()
+        if case.get("falsy_stdout"):
+            class ListWriter:
+                """A stream that collects what is written - and is falsy while nothing has been written."""
+
+                def __init__(self):
+                    self.parts = []
+
+                def write(self, text):
+                    self.parts.append(text)
+
+                def flush(self):
+                    pass
+
+                def __len__(self):
+                    return len(self.parts)
+
+                def getvalue(self):
+                    return "".join(self.parts)
+            out = ListWriter()
         try:
             TestProgram(module=mod, argv=["prog", "--list"] + names, stdout=out, exit=False, **runner_kw)
         except SystemExit as e:
@@ -622,7 +666,7 @@ def run(ctx):
         rng.shuffle(keep)
         ctx.execute("run", {"tree": tree, "keep": keep, "style": rng.randrange(6),
                             "after_failed_import": rng.random() < 0.3, "via_load_tests": rng.random() < 0.4,
-                            "bare_runner": rng.random() < 0.3})
+                            "bare_runner": rng.random() < 0.3, "falsy_stdout": rng.random() < 0.3})
     for how in ("shared", "wrapping"):
         for k in (1, 2, 3, 6, 12):
             ctx.execute("iter_special", {"how": how, "n": k})
